@@ -812,12 +812,19 @@ impl UndoOperation for InsertColumn {
 }
 
 mod scroll_util {
-    use crate::{editor::EditorError, EngineResult};
+    use crate::{editor::EditorError, EngineResult, TextPane};
 
     pub(crate) fn scroll_layer_up(edit_state: &mut crate::editor::EditState, layer: usize) -> EngineResult<()> {
         if let Some(layer) = edit_state.get_buffer_mut().layers.get_mut(layer) {
-            let lines = layer.lines.remove(0);
-            layer.lines.push(lines);
+            // rotate the rows of the layer, not whatever happens to be stored
+            let height = layer.get_height().max(0) as usize;
+            if height > 0 {
+                if layer.lines.len() < height {
+                    layer.lines.resize(height, crate::Line::default());
+                }
+                let lines = layer.lines.remove(0);
+                layer.lines.insert(height - 1, lines);
+            }
             Ok(())
         } else {
             Err(EditorError::InvalidLayer(layer).into())
@@ -825,10 +832,13 @@ mod scroll_util {
     }
     pub(crate) fn scroll_layer_down(edit_state: &mut crate::editor::EditState, layer: usize) -> EngineResult<()> {
         if let Some(layer) = edit_state.get_buffer_mut().layers.get_mut(layer) {
-            if let Some(lines) = layer.lines.pop() {
+            let height = layer.get_height().max(0) as usize;
+            if height > 0 {
+                if layer.lines.len() < height {
+                    layer.lines.resize(height, crate::Line::default());
+                }
+                let lines = layer.lines.remove(height - 1);
                 layer.lines.insert(0, lines);
-            } else {
-                log::error!("Layer {layer} has no lines");
             }
             Ok(())
         } else {
